@@ -1,4 +1,4 @@
-\* C12 -- thorough tier: 4-field classes: every subset x 7 uniform shapes and x independent shapes; single fields x all record lists with sizes 1..18; pairs (closed); props/c12.py sets EmitOff
+\* C12 -- thorough tier: 4-field classes: every subset x 8 uniform shapes and (Dsc, Release) x independent shapes; histories; identical records; several live objects; single fields x all record lists with sizes 1..18; pairs (closed); props/c12.py sets EmitOff
 CONSTANTS
   Tables <- DocTables
   Modes <- ModesThorough
